@@ -33,6 +33,9 @@ class D1(Dialect):
 
 
 def ident(x, **kw):
+    # the transport stub reports the options it was given, so that a dropped orjson_options is visible
+    if kw:
+        return (x, sorted(kw.items()))
     return x
 
 
@@ -64,7 +67,7 @@ def build(mode, tag, mixin=DataClassORJSONMixin):
     def mk(name, fields, bases=(mixin,)):
         return reg(dataclasses.make_dataclass(name + tag, fields, bases=bases, namespace=ns(name)), name)
 
-    inner_fields = [("a", int), ("d", datetime.date, F(default=datetime.date(2000, 1, 1)))]
+    inner_fields = [("a", int), ("d", datetime.date, F(default=datetime.date(2000, 1, 1))), ("b", bytes, F(default=b"\x00x"))]
     if mode == "postponed":
         # Outer first, with forward references that cannot be resolved yet
         if hasattr(MOD, "Inner" + tag):
@@ -117,7 +120,10 @@ def run_op(names, op, x, fmt):
     if method == "to_dict":
         st, r = call(lambda: x.to_dict(**kw))
     elif method == "to_fmt":
-        st, r = call(lambda: getattr(x, to_fmt)(encoder=ident, **kw))
+        if to_fmt == "to_jsonb":
+            st, r = call(lambda: x.to_jsonb(encoder=ident, orjson_options=1024 + 8, **kw))
+        else:
+            st, r = call(lambda: getattr(x, to_fmt)(encoder=ident, **kw))
     else:
         st, doc = call(lambda: x.to_dict(**kw))
         if st == "exc":
